@@ -1157,6 +1157,7 @@ def unpack_named_tuple(spec: ValueSpec) -> Expression:
                 type=annotations.get(field, Any),
                 expression=f"{packed_value}[{idx}]",
                 could_be_none=True,
+                owner=spec.type,
             )
         )
         unpackers.append(unpacker)
